@@ -440,6 +440,8 @@ theorem mem_writeHunk (file : List Line) : ∀ (ls : List PatchLine) (cur : Nat)
     rw [writeHunk] at h
     split at h
     · split at h
+      · exact lift (ih _ _ _ h o ho)
+      split at h
       · cases h
       · next l hl =>
         rw [Option.map_eq_some_iff] at h
